@@ -136,6 +136,51 @@ def run(rep, tier="quick", replay=None, evidence_dir=None):
                                 ok = True
         rep.ob("C06.R5", "deserialize_option calls visit_none only on the Null edge of the selected branch's schema", ok,
                "a non-null branch decoded as None leaves its datum unread: the deserializer accepts bytes the generic decoder rejects, and Some(x) comes back as None", do.loc())
+    # ---------------- R6: the container reader decodes from a buffer that holds exactly the declared block
+    rep.rule("C06.R6", "the block buffer the decoders read from holds exactly the declared block: fill_buf sets its length on every path before reading into it")
+    fb = prog.bodies.get("reader::block::Block::<'r, R>::fill_buf")
+    if fb is None:
+        rep.anchor_error("C06.R6", "reader::block::Block::fill_buf")
+    else:
+        from mir import calls_named
+        rd = [(bi, t) for bi, t in calls_named(fb, "std::io::Read::read_exact")]
+        sizers = [(bi, t) for bi, t in calls_named(fb, "std::vec::Vec::<T, A>::resize") if "self.buf" in fb.opdesc(t["args"][0])]
+        # or the buffer is replaced wholesale
+        repl = [bi for bi, si, st in fb.stmts() if st["s"] == "assign" and st["pl"]["p"] and fb.pldesc(st["pl"]).endswith("self.buf")]
+        if rep.ob("C06.R6", "fill_buf reads the block with one read_exact", len(rd) == 1, "found %d" % len(rd), fb.loc()):
+            r_bi = rd[0][0]
+            dom = [bi for bi, t in sizers if fb.dominates(bi, r_bi)] + [bi for bi in repl if fb.dominates(bi, r_bi)]
+            rep.ob("C06.R6", "fill_buf: the buffer is given the block's length on every path to the read (Vec::resize dominates read_exact)", bool(dom),
+                   "when the buffer keeps a larger length, bytes of an earlier block stay visible behind the current one: a short block or an overstated object count is completed from stale bytes instead of failing", fb.loc(r_bi))
+            # the size comes from the parameter (through the allocation guard)
+            okn = False
+            for bi, t in sizers:
+                a = t["args"][1]
+                cr = fb.call_result_of(a)
+                cur = a
+                for _ in range(4):
+                    r = fb.resolve_operand(cur) if cur.get("k") in ("copy", "move") else None
+                    if r and r[0] == 2:
+                        okn = True
+                        break
+                    cr = fb.call_result_of(cur)
+                    if not cr or not cr[1]["args"]:
+                        break
+                    cur = cr[1]["args"][0]
+            rep.ob("C06.R6", "fill_buf: the new length is the declared block size", okn or bool(repl), "", fb.loc())
+            # read_exact fills the buffer itself (whole), not a longer or shorter view
+            a = rd[0][1]["args"][1]
+            desc = fb.opdesc(a)
+            rep.ob("C06.R6", "fill_buf: read_exact fills the whole buffer", "self.buf" in desc and "[" not in desc.replace("self.buf", ""), "reads into %s" % desc, fb.loc(r_bi))
+    for fn in ("reader::block::Block::<'r, R>::read_next", "reader::block::Block::<'r, R>::read_next_deser"):
+        b = prog.bodies.get(fn)
+        if b is None:
+            rep.anchor_error("C06.R6", fn)
+            continue
+        # the slice handed to the decoder starts at buf_idx and runs to the end of the buffer
+        idx = [(bi, t) for bi, t in b.calls() if callee_names(t["func"])[0] in ("std::ops::Index::index",) and "self.buf" in b.opdesc(t["args"][0])]
+        rep.ob("C06.R6", "%s decodes from self.buf[self.buf_idx..]" % fn.split("::")[-1], len(idx) >= 1 and all("RangeFrom" in str(t["func"].get("ga")) or "RangeFrom" in (b.local_ty(op_local(t["args"][1])) or "") for bi, t in idx),
+               "", b.loc())
     rep.not_decided = ["validate(decode(b)) for concrete values (UTF-8, uuid text, decimal widths)", "re-encode equality"]
     return common.finish(rep, level="other",
                          explanation="static rules over MIR: (R1/R3) dominance query 'Ok constructed only reachable via the Err edge of a read result' over every Read-bounded function; (R2) variant-partitioned path summaries of decode_internal vs validate_internal",
